@@ -2231,6 +2231,12 @@ func repoTagHandler(c web.C, w http.ResponseWriter, r *http.Request) {
 		}
 	}
 
+	// The tag becomes the UUID of the new node, and the empty UUID is reserved (dvid.NilUUID).
+	if jsonData.Tag == "" {
+		BadRequest(w, r, "tag request requires a non-empty 'tag'")
+		return
+	}
+
 	// create new branch
 	branch := "tag-" + jsonData.Tag
 	note := fmt.Sprintf("Tag of version %s with %q", uuid, jsonData.Tag)
